@@ -157,6 +157,7 @@ def run(report, tier):
             cands = pool.run(report, task, tasks)
             for c in cands:
                 c["units"] = c["units"] + c["units"]
+            pool.cross_check(report)
             E.native_confirm(report, "C08", cands, desc, oracle, probes=probes2)
             fut.result()
     finally:
